@@ -48,7 +48,8 @@ class TicketType(MichelsonType, prim='ticket', args_len=1):
         if left.ticketer != right.ticketer or left.item != right.item:
             return None
         else:
-            return TicketType(ticketer=left.ticketer, item=left.item, amount=left.amount + right.amount)
+            # NOTE: keep the concrete ticket type (the bare TicketType class has no type argument)
+            return type(left)(ticketer=left.ticketer, item=left.item, amount=left.amount + right.amount)
 
     @classmethod
     def generate_pydoc(cls, definitions: List[Tuple[str, str]], inferred_name=None, comparable=False) -> str:
